@@ -10,6 +10,7 @@
 import Proofs.Lemmas.BlakeStream
 import Proofs.Lemmas.BlakeStreamEmpty
 import Proofs.Lemmas.BlakeFull
+import Proofs.Lemmas.StreamingBitlen
 namespace Proofs.C14_Blake
 open Model Proofs.Lemmas Proofs.Lemmas.BlakeStream
 
@@ -81,6 +82,27 @@ theorem blake_bitcnt_after_pieces (c : Blake.Cfg)
     (hal : ∀ p ∈ pieces, p.length % (c.blocksize / 8) = 0) :
     (Blake.feed c s pieces).pad = { s.pad with bitcnt := s.pad.bitcnt + 8 * pieces.flatten.length } :=
   (blake_feed c hc pieces hal [0] (by simp) s hs).2
+
+/-- BLAKE, a non-final piece given with its bit length (readinto-style buffers): `update(buf, bitlen=L)` with L whole blocks
+    and L ≤ 8|buf| — L = 0 on a NON-EMPTY buffer and L = 8n on a buffer longer than n bytes included — is, for the new
+    object state and the returned value, `update(buf[:L/8])`; so `blake_pieces` / `blake_bitcnt_after_pieces` hold for
+    pieces given with bit lengths, on the first L bits of every piece -/
+theorem blake_update_bitlen (c : Blake.Cfg)
+    (hc : c = Blake.blake224 ∨ c = Blake.blake256 ∨ c = Blake.blake384 ∨ c = Blake.blake512)
+    (s : Blake.State) (m : List Nat) (L : Nat) (hL : L ≤ 8 * m.length) (hmul : L % c.blocksize = 0) :
+    Blake.update c s m (some L) false = Blake.update c s (m.take (L / 8)) none false := by
+  unfold Blake.update
+  rcases hc with rfl | rfl | rfl | rfl
+  · rw [StreamingBitlen.iterblocks_bitlen_nonfinal (Padder.blakeP Blake.blake224.size) 64 rfl (by decide) s.pad m L hL hmul]
+  · rw [StreamingBitlen.iterblocks_bitlen_nonfinal (Padder.blakeP Blake.blake256.size) 64 rfl (by decide) s.pad m L hL hmul]
+  · rw [StreamingBitlen.iterblocks_bitlen_nonfinal (Padder.blakeP Blake.blake384.size) 128 rfl (by decide) s.pad m L hL hmul]
+  · rw [StreamingBitlen.iterblocks_bitlen_nonfinal (Padder.blakeP Blake.blake512.size) 128 rfl (by decide) s.pad m L hL hmul]
+
+/-- `initstate(salt)` does not look at the object it is called on: after an abandoned stream the counter is 0 and no
+    padding is recorded, so the theorems above (stated from `Blake.initstate c salt`) hold after re-initialising an object
+    with any history (tied to the code by the `blakeseq.h … init …` lines) -/
+theorem blake_initstate_forgets (c : Blake.Cfg) (salt : Nat) :
+    (Blake.initstate c salt).pad = { padflag := false, bitcnt := 0, padcnt := 0 } := rfl
 
 /-- BLAKE2, digest and object state: pieces then a non-empty final piece = one-shot on the concatenation.
     (`_partial`: the property also quantifies over the empty final piece, for which the code fails — known finding.) -/
